@@ -24,6 +24,23 @@ func (w *World) indexFields() {
 				w.Fields[tn.Name()+"."+st.Field(i).Name()] = st.Field(i).Type()
 			}
 		}
+		// exported fields of library structs the repository reads through pointers (yaml.Node): contracts may name them
+		for _, imp := range p.Types.Imports() {
+			if imp.Path() != "gopkg.in/yaml.v3" {
+				continue
+			}
+			if tn, ok := imp.Scope().Lookup("Node").(*types.TypeName); ok {
+				if st, ok := tn.Type().Underlying().(*types.Struct); ok {
+					for i := 0; i < st.NumFields(); i++ {
+						if st.Field(i).Exported() {
+							if _, dup := w.Fields["Node."+st.Field(i).Name()]; !dup {
+								w.Fields["Node."+st.Field(i).Name()] = st.Field(i).Type()
+							}
+						}
+					}
+				}
+			}
+		}
 	}
 }
 
